@@ -1329,7 +1329,9 @@ def _memo_sites(prog, mi, ci, fn):
             any(unparse(r) == unparse(val) and not isinstance(val, ast.Constant) for r in rets) or \
             any(isinstance(r, ast.Call) and isinstance(r.func, ast.Attribute) and r.func.attr == "get" and unparse(r.func.value) == ttxt for r in rets)
         tested = any(isinstance(c, ast.Compare) and len(c.ops) == 1 and isinstance(c.ops[0], (ast.In, ast.NotIn))
-                     and unparse(c.comparators[0]) == ttxt for c in ast.walk(fn))
+                     and unparse(c.comparators[0]) == ttxt for c in ast.walk(fn)) or \
+            any(isinstance(c, ast.Call) and isinstance(c.func, ast.Attribute) and c.func.attr in ("get", "setdefault")
+                and unparse(c.func.value) == ttxt for c in ast.walk(fn))
         if handed_back and tested:
             out.append((ttxt, st.slice, st, _self_attr(table)))
     return out
